@@ -56,9 +56,6 @@ Qed.
 
 (* ---------------------------------------------------------------- invariant *)
 Definition tentry (e : tent) : name * (tkind * nat) := (te_name e, (te_kind e, te_id e)).
-Definition is_ext_of (m : name) (e : tent) : bool := tkind_eqb (te_kind e) TExt && name_eqb (te_ext e) m.
-Definition ext_filter (rs : list tent) (m : name) : list tent := filter (is_ext_of m) rs.
-Definition kind_filter (rs : list tent) (k : tkind) : list tent := filter (fun e => tkind_eqb (te_kind e) k) rs.
 
 Record tinv (s : tstate) (rs : list tent) : Prop := {
   ti_types : ts_types s = map tentry rs;
